@@ -8,6 +8,7 @@
 -/
 import ElfVerif.Lemmas.Prog
 import ElfVerif.Ref.AbiLayouts
+import ElfVerif.Props.C04
 namespace Elf.C02
 open Elf.Ref
 
@@ -222,5 +223,75 @@ example : (Rela.ep.parse false .ELF32
 example : (Symbol.ep.parse true .ELF64
     (Slice.ofArray #[1, 0, 0, 0, 0x12, 3, 5, 0, 8, 0, 0, 0, 0, 0, 0, 0, 9, 0, 0, 0, 0, 0, 0, 0]) 0).1 =
     .ok ⟨1, 5, 0x12, 3, 8, 9⟩ := by decide
+
+/-! ## Round trip at structure level: the ABI encoding of any field values parses back to them -/
+
+/-- the ABI encoding of a structure: its fields' raw (unsigned) values one after the other, each in
+    `width` bytes of the file's byte order -/
+def encodeFields (le : Bool) : List Ty → List Nat → List Nat
+  | t :: ts, u :: us => (if le then C04.encodeLE t.width u else C04.encodeBE t.width u) ++ encodeFields le ts us
+  | _, _ => []
+
+/-- the value the parser hands out for raw field value `u` of type `t`: `u` itself, or its two's
+    complement reading for signed fields -/
+def fieldVal (t : Ty) (u : Nat) : Int := if t.signed then toSigned t.width u else (u : Int)
+
+def InRange : List Ty → List Nat → Prop
+  | t :: ts, u :: us => u < 256 ^ t.width ∧ InRange ts us
+  | [], [] => True
+  | _, _ => False
+
+theorem encodeBE_length (w v : Nat) : (C04.encodeBE w v).length = w := by
+  unfold C04.encodeBE; simp [C04.encodeLE_length]
+
+/-- **decode ∘ encode = id for whole structures**: if the window holds the ABI encoding of the raw
+    field values `us` at `off`, the values the parser reads at successive ABI offsets are exactly
+    those values (sign-interpreted for signed fields). -/
+theorem valsAt_encoded (le : Bool) (d : Slice) (ts : List Ty) (us : List Nat) (off : Nat)
+    (hr : InRange ts us) (h : C04.HoldsAt d off (encodeFields le ts us)) :
+    valsAt le d ts off = List.zipWith fieldVal ts us := by
+  induction ts generalizing us off with
+  | nil =>
+    cases us with
+    | nil => rfl
+    | cons u us => exact absurd hr (by simp [InRange])
+  | cons t ts ih =>
+    cases us with
+    | nil => exact absurd hr (by simp [InRange])
+    | cons u us =>
+      obtain ⟨hu, hr'⟩ := hr
+      simp only [encodeFields] at h
+      rw [C04.holdsAt_append] at h
+      obtain ⟨h1, h2⟩ := h
+      have hlen : (if le then C04.encodeLE t.width u else C04.encodeBE t.width u).length = t.width := by
+        cases le <;> simp [C04.encodeLE_length, encodeBE_length]
+      rw [hlen] at h2
+      simp only [valsAt, List.zipWith_cons_cons]
+      rw [ih us (off + t.width) hr' h2]
+      congr 1
+      unfold tyVal fieldVal
+      rw [C04.decode_encode le d off t.width u hu h1]
+
+/-- …hence parsing that encoding yields the record built from exactly those values and consumes
+    exactly the structure's size (with `parse_abi_encoded`). -/
+theorem parse_of_encoding {α} (ep : EntryParser α) (le : Bool) (c : Class) (d : Slice) (off : Nat) (us : List Nat)
+    (hfit : off + (ep.prog c).size ≤ d.len) (husz : off + (ep.prog c).size < USZ)
+    (hr : InRange (ep.prog c).reads us) (h : C04.HoldsAt d off (encodeFields le (ep.prog c).reads us))
+    (hg : guardAccepts (ep.prog c).guard 0 (List.zipWith fieldVal (ep.prog c).reads us)) :
+    ep.parse le c d off =
+      (match ep.build ((ep.prog c).fields.map (Expr.eval (List.zipWith fieldVal (ep.prog c).reads us))) with
+       | some a => .ok a
+       | none => .panic, off + (ep.prog c).size) := by
+  have hv := valsAt_encoded le d (ep.prog c).reads us off hr h
+  rw [parse_abi_encoded ep le c d off hfit husz (by rw [hv]; exact hg), hv]
+
+/- Non-vacuity: a little-endian ELF64 `Rel` (r_offset = 0x10, r_info = (7 << 32) | 3) laid out by
+   `encodeFields`, and its hypotheses. -/
+example : encodeFields true [.u64, .u64] [0x10, 0x700000003] =
+    [0x10,0,0,0,0,0,0,0, 3,0,0,0,7,0,0,0] := by decide
+example : InRange [.u64, .u64] [0x10, 0x700000003] := by simp [InRange, Ty.width]
+example : C04.HoldsAt (Slice.ofArray #[0x10,0,0,0,0,0,0,0, 3,0,0,0,7,0,0,0]) 0
+    (encodeFields true [.u64, .u64] [0x10, 0x700000003]) := by
+  simp [encodeFields, C04.encodeLE, C04.HoldsAt, Ty.width, Slice.byte, Slice.ofArray]
 
 end Elf.C02
